@@ -15,7 +15,7 @@ CONSTANTS
   MaxCtr = 1
   LoadCap = 2
   MaxReq = 2
-  CmdsOf <- C11Entry3
+  CmdsOf <- C11Entry4
   Export = TRUE
 SPECIFICATION Spec
 INVARIANT TypeOK
